@@ -63,6 +63,10 @@ class Contract:
         self.value = getattr(cls, "value", None)  # functional contract: the result as an expression of the arguments
         self.replay = getattr(cls, "replay", None)  # model -> concrete call arguments
         self.canary = getattr(cls, "canary", True)
+        # facts about the result that follow from `ensures` by a NAMED trusted rule (not proved by the
+        # solver): assumed at call sites, listed as an assumption, evaluated at run time like `ensures`
+        self.derived = getattr(cls, "derived", None)
+        self.derived_rule = getattr(cls, "derived_rule", None)
 
 
 def contract(name, params, returns=None, props=(), assumed=False):
@@ -133,18 +137,33 @@ class SymCtx:
         iv = IntV(i)
         inner = B(body(iv))
         f = z3.Implies(z3.And(i >= Z(lo), i < Z(hi)), inner)
-        return BoolV(_forall([i], f, pattern(iv) if pattern else None))
+        pat = None
+        if pattern:
+            # a term, a list of alternative triggers, or a TUPLE = one multi-pattern (all terms needed)
+            pat = pattern(iv)
+            alts = pat if isinstance(pat, list) else [pat]
+            out = []
+            for alt in alts:
+                terms = [Z(x) if isinstance(x, (IntV, int)) else x for x in (alt if isinstance(alt, tuple) else (alt,))]
+                if all(_pat_ok(x) for x in terms):
+                    out.append(z3.MultiPattern(*terms) if len(terms) > 1 else terms[0])
+            pat = out or None  # an unusable trigger is dropped (z3 chooses)
+        return BoolV(_forall([i], f, pat))
 
     def exists(self, lo, hi, body):
         i = fresh("e")
         iv = IntV(i)
         return BoolV(z3.Exists([i], z3.And(i >= Z(lo), i < Z(hi), B(body(iv)))))
 
-    def forall2(self, lo, hi, body):
-        """forall i, j in [lo, hi)"""
+    def forall2(self, lo, hi, body, pattern=None):
+        """forall i, j in [lo, hi); pattern(i, j) -> the terms of ONE multi-pattern"""
         i, j = fresh("q"), fresh("q")
         f = z3.Implies(z3.And(i >= Z(lo), i < Z(hi), j >= Z(lo), j < Z(hi)), B(body(IntV(i), IntV(j))))
-        return BoolV(z3.ForAll([i, j], f))
+        if pattern is not None:
+            pats = [Z(x) if isinstance(x, (IntV, int)) else x for x in pattern(IntV(i), IntV(j))]
+            if all(_pat_ok(x) for x in pats):
+                return BoolV(z3.ForAll([i, j], f, patterns=[z3.MultiPattern(*pats) if len(pats) > 1 else pats[0]], qid=_qid()))
+        return BoolV(z3.ForAll([i, j], f, qid=_qid()))
 
     def forall_int(self, body):
         i = fresh("q")
@@ -154,9 +173,17 @@ class SymCtx:
         x, y = fresh("cx"), fresh("cy")
         return BoolV(z3.ForAll([x, y], B(body(IntV(x), IntV(y)))))
 
+    def forall_tuple(self, n, body, universe=None):
+        """for every integer tuple t of length n (a variable of the tuple sort; trigger tid(t))"""
+        from .values import TID, TLEN, TUP, from_T
+
+        tau = z3.Const(f"qt!{fresh('t')}", TUP)
+        f = z3.Implies(TLEN(tau) == Z(n), B(body(from_T(tau))))
+        return BoolV(z3.ForAll([tau], f, patterns=[TID(tau)], qid=_qid()))
+
     # sequences
     def len(self, x):
-        if isinstance(x, ListV):
+        if isinstance(x, ListV) or type(x).__name__ == "TupListV":
             return IntV(x.n)
         if isinstance(x, SeqV):
             return IntV(x.n)
@@ -339,12 +366,23 @@ class SymCtx:
         return self.engine.call_by_contract(name, list(args), ctx=self)
 
 
+def _qid(depth=2):
+    """quantifier id = contract file:line that built it (only used by z3's instantiation profile)"""
+    import os
+    import sys
+
+    f = sys._getframe(depth)
+    while f is not None and f.f_code.co_filename.endswith(("dsl.py",)):
+        f = f.f_back
+    return f"{os.path.basename(f.f_code.co_filename)[:-3]}_L{f.f_lineno}" if f is not None else ""
+
+
 def _forall(vars_, body, pattern=None):
     if pattern is not None:
         pats = pattern if isinstance(pattern, (list, tuple)) else [pattern]
         pats = [Z(p) if isinstance(p, (IntV, int)) else p for p in pats]
-        return z3.ForAll(vars_, body, patterns=[p for p in pats])
-    return z3.ForAll(vars_, body)
+        return z3.ForAll(vars_, body, patterns=[p for p in pats], qid=_qid())
+    return z3.ForAll(vars_, body, qid=_qid())
 
 
 _ARITH = {z3.Z3_OP_ADD, z3.Z3_OP_SUB, z3.Z3_OP_MUL, z3.Z3_OP_UMINUS, z3.Z3_OP_ANUM}
@@ -373,8 +411,8 @@ def perm_formula(p, g):
     gv = Z(g(v))
     b1 = z3.Implies(z3.And(i >= 0, i < n), z3.And(pi >= 0, pi < n, Z(g(pi)) == i))
     b2 = z3.Implies(z3.And(v >= 0, v < n), z3.And(gv >= 0, gv < n, Z(p.at(gv)) == v))
-    f1 = z3.ForAll([i], b1, patterns=[pi]) if _pat_ok(pi) else z3.ForAll([i], b1)
-    f2 = z3.ForAll([v], b2, patterns=[gv]) if _pat_ok(gv) else z3.ForAll([v], b2)
+    f1 = z3.ForAll([i], b1, patterns=[pi], qid="perm-fwd") if _pat_ok(pi) else z3.ForAll([i], b1)
+    f2 = z3.ForAll([v], b2, patterns=[gv], qid="perm-inv") if _pat_ok(gv) else z3.ForAll([v], b2)
     return z3.And(n >= 0, f1, f2)
 
 
@@ -420,7 +458,7 @@ class RunCtx:
     def exists(self, lo, hi, body):
         return any(body(i) for i in range(lo, hi))
 
-    def forall2(self, lo, hi, body):
+    def forall2(self, lo, hi, body, pattern=None):
         return all(body(i, j) for i in range(lo, hi) for j in range(lo, hi))
 
     def forall_int(self, body, span=None):
@@ -430,6 +468,13 @@ class RunCtx:
     def forall_cell(self, body, span=None):
         lo, hi = span or (-2, 12)
         return all(body(x, y) for x in range(lo, hi) for y in range(lo, hi))
+
+    def forall_tuple(self, n, body, universe=None):
+        """run time: every tuple of length n over the given universe of entries (default: -1..6)"""
+        import itertools
+
+        lo, hi = universe or (-1, 7)
+        return all(body(t) for t in itertools.product(range(lo, hi), repeat=n))
 
     def len(self, x):
         return len(x)
